@@ -11,6 +11,7 @@ def build(repo, tier, seed):
     v4, u4, sanity = fingerprint.build(repo)
     b = classlaws.bundle(repo, tier, seed, ("L1", "L2"), classes=["WithOptions", "EvaluatableKwargs", "EvaluatableArguments", "FunctionApplication"],
                          extra_vcs=v1 + v2 + v3 + v4, extra_sanity=sanity, bounded=False)
+    b["vcs"] += preset_effectiveness(repo)
     b["syntactic"] += s2 + s3 + t_syn
     b["undecided"] += u1 + u2 + u3 + t_und + u4
 
@@ -26,3 +27,26 @@ def build(repo, tier, seed):
         "EvaluatableKwargs' comprehension, sequential order by the trace obligations)",
         "effects run once per body execution, after it, with its value, and never on a hit: Computation:C16 obligations + the tower structure (Computation and Logged inside Cached)"]
     return b
+
+
+def preset_effectiveness(repo):
+    """WithOptions.keys/explain drop every key whose value is fully determined by the pre-set dictionary (so it cannot split cache entries):
+    forced: the pre-set holds the key and either the caller does not or the pre-set value is not a section; defaults: the caller does not hold it."""
+    import z3
+    from pyvc import theory as T
+    from pyvc.solve import VC
+    from .laws import Runs, base_noregion, O1, SELF
+    ci = repo.module("option").classes["WithOptions"]
+    R = Runs(repo, ci)
+    hyp = base_noregion(ci)
+    force = z3.Function("fld!WithOptions.force", T.Ev, T.B)(SELF)
+    P = z3.Function("fld!WithOptions.options", T.Ev, T.Opt)(SELF)
+    k = z3.Const("k!pe", T.Key)
+    determined = z3.And(T.has(P, k), z3.Or(z3.Not(T.has(O1, k)), z3.And(force, z3.Not(T.isdict(T.get(P, k))))))
+    out = []
+    for meth in ("keys", "explain"):
+        for i, p in enumerate(R.paths(meth, 1)):
+            if p.kind == "ok":
+                out.append(VC(f"WithOptions:C02:{meth}-drops-keys-determined-by-the-preset#{i}", hyp + p.pc + p.defs,
+                              z3.ForAll([k], z3.Implies(z3.IsMember(k, p.value[1]), z3.Not(determined))), {"law": "C02", "cls": "WithOptions"}))
+    return out
